@@ -1,2 +1,152 @@
-(* C09 — property theorems only. *)
-From Dastard Require Import Common.ZX Pipeline.Stream C09.Model C09.Spec.
+(* C09 — property theorems only: each closed by [exact], each followed by Print Assumptions.
+   Vocabulary (Spec.v): a connection set is a relation  rel = source -> receiver -> bool;
+   rel_of_edits k n es  is the set-theoretic result of the requests es on n channels of a source of kind k
+   (fold of rel_add / rel_del / clear / the err-fb pairing, starting from the empty set; rel_add ignores
+   self-pairs and any pair with an index outside [0, n));  sources_of n R r = the sources of receiver r;
+   truth r ops = all samples the history ops delivered to channel r;  inputs_ok = the blocks of a history
+   are contiguous, all channels get equally long blocks, and every primary trigger frame lies where the
+   retained stream supplies a full record (which is where TriggerData can cut one). *)
+From Dastard Require Import Common.ZX Pipeline.Stream C09.Model C09.Spec C09.Proofs.
+
+(* For ALL sequences of add / delete / stop / err-fb-coupling requests with arbitrary indices, the
+   connections the broker holds (TriggerBroker.isConnected) are exactly the set-theoretic result. *)
+Theorem connections_are_set_semantics :
+  forall k n es s r, 0 <= n ->
+    connected (run_edits k (new_broker n) es) s r = rel_of_edits k n es s r.
+Proof. exact set_semantics. Qed.
+Print Assumptions connections_are_set_semantics.
+
+(* nconnections = sum over receivers of the number of its sources, after every request sequence; so the
+   "nconnections == 0" shortcut of Distribute is taken only when there is no connection at all. *)
+Theorem counter_invariant :
+  forall k n es, 0 <= n ->
+    let b := run_edits k (new_broker n) es in
+    b_cnt b = zsum (map (fun r => zlen (srcs b r)) (zrange 0 n)) /\
+    (b_cnt b = 0 -> forall s r, connected b s r = false).
+Proof. exact counter_is_sum. Qed.
+Print Assumptions counter_invariant.
+
+(* computeGroupTriggerState lists every connection exactly once and nothing else. *)
+Theorem report_is_state :
+  forall k n es, 0 <= n ->
+    let b := run_edits k (new_broker n) es in
+    NoDup (report_pairs b) /\ forall s r, In (s, r) (report_pairs b) <-> connected b s r = true.
+Proof. exact report_lists_state. Qed.
+Print Assumptions report_is_state.
+
+(* In EVERY cycle (after any history pre of requests and cycles), for EVERY receiver r: the multiset of its
+   secondary trigger frames is the multiset union of the primaries of the channels connected to it as
+   sources under the set-theoretic connection set; none if it has no incoming connection.
+   (zcount f l = multiplicity of f in l.) *)
+Theorem secondaries_are_union :
+  forall cf pre blk prims,
+    0 <= cf_n cf -> 0 <= cf_nsamp cf -> inputs_ok cf None 0 (pre ++ [OCycle blk prims]) ->
+    exists obs recs,
+      run cf (pre ++ [OCycle blk prims]) = obs ++ [OSec recs] /\ length obs = length pre /\
+      zlen recs = cf_n cf /\
+      let R := rel_of_edits (cf_kind cf) (cf_n cf) (edits_of pre) in
+      forall r, 0 <= r < cf_n cf ->
+        (forall f, zcount f (map r_frame (znth [] recs r))
+                   = zsum (map (fun s => zcount f (znth [] prims s)) (sources_of (cf_n cf) R r))) /\
+        ((forall s, R s r = false) -> znth [] recs r = []).
+Proof. exact every_cycle_union. Qed.
+Print Assumptions secondaries_are_union.
+
+(* In EVERY cycle, EVERY secondary record of receiver r is the excerpt of r's OWN ground truth around its
+   trigger frame: npre samples before, nsamp in total, entirely inside what was delivered to r. *)
+Theorem secondary_excerpt :
+  forall cf pre blk prims,
+    0 <= cf_n cf -> 0 <= cf_nsamp cf -> inputs_ok cf None 0 (pre ++ [OCycle blk prims]) ->
+    exists obs recs,
+      run cf (pre ++ [OCycle blk prims]) = obs ++ [OSec recs] /\ length obs = length pre /\
+      let F0 := match first_frame pre with Some f => f | None => blk_first blk end in
+      forall r rc, 0 <= r < cf_n cf -> In rc (znth [] recs r) ->
+        let G := truth r (pre ++ [OCycle blk prims]) in
+        let j := r_frame rc - F0 in
+        r_pre rc = cf_npre cf /\ 0 <= j - cf_npre cf /\ j - cf_npre cf + cf_nsamp cf <= zlen G /\
+        r_data rc = zslice G (j - cf_npre cf) (cf_nsamp cf).
+Proof. exact every_cycle_excerpt. Qed.
+Print Assumptions secondary_excerpt.
+
+(* ... and cutting them never panics: every step of every well-formed history yields an observation, none
+   of them a crash (out-of-range index in Distribute, slice out of range in triggerAtSpecificSamples). *)
+Theorem cycles_never_panic :
+  forall cf ops, 0 <= cf_n cf -> 0 <= cf_nsamp cf -> inputs_ok cf None 0 ops ->
+    length (run cf ops) = length ops /\ ~ In OCrash (run cf ops).
+Proof. exact model_never_crashes. Qed.
+Print Assumptions cycles_never_panic.
+
+(* The whole property as the observable checker states it: for every well-formed history the model's
+   observations are accepted (reported state = set after every request; per cycle and receiver the
+   secondary frames are the multiset union and every record is the receiver's own excerpt). *)
+Theorem model_passes_checker :
+  forall cf ops, 0 <= cf_n cf -> 0 <= cf_nsamp cf -> inputs_ok cf None 0 ops ->
+    C09_check cf (combine ops (run cf ops)) = true.
+Proof. exact model_satisfies_checker. Qed.
+Print Assumptions model_passes_checker.
+
+(* What the checker's acceptance means, independent of any model: after a request the reported pairs are
+   duplicate-free, name channels only, and are exactly the updated connection set ... *)
+Theorem checker_sound_report :
+  forall cf st e rep cnt st',
+    check_step cf st (OEdit e) (ORep rep cnt) = Some st' ->
+    c_R st' = rel_edit (cf_kind cf) (cf_n cf) (c_R st) e /\
+    NoDup rep /\
+    (forall s r, In (s, r) rep -> 0 <= s < cf_n cf /\ 0 <= r < cf_n cf) /\
+    (forall s r, 0 <= s < cf_n cf -> 0 <= r < cf_n cf -> (In (s, r) rep <-> c_R st' s r = true)).
+Proof. exact check_edit_sound. Qed.
+Print Assumptions checker_sound_report.
+
+(* ... and in a cycle every receiver's secondary frames are the multiset union of its sources' primaries
+   (none without sources) and every record is the excerpt of the receiver's accumulated ground truth. *)
+Theorem checker_sound_cycle :
+  forall cf st blk prims recs st',
+    check_step cf st (OCycle blk prims) (OSec recs) = Some st' ->
+    c_R st' = c_R st /\
+    c_G st' = map2 (fun g ch => g ++ fst ch) (c_G st) (blk_chans blk) /\
+    c_F0 st' = Some (match c_F0 st with Some f => f | None => blk_first blk end) /\
+    zlen recs = cf_n cf /\
+    forall r, 0 <= r < cf_n cf ->
+      (forall f, zcount f (map r_frame (znth [] recs r))
+                 = zsum (map (fun s => zcount f (znth [] prims s)) (sources_of (cf_n cf) (c_R st) r))) /\
+      ((forall s, c_R st s r = false) -> znth [] recs r = []) /\
+      (forall rc, In rc (znth [] recs r) ->
+         let G := znth [] (c_G st') r in
+         let j := r_frame rc - match c_F0 st with Some f => f | None => blk_first blk end in
+         r_pre rc = cf_npre cf /\ 0 <= j - cf_npre cf /\ j - cf_npre cf + cf_nsamp cf <= zlen G /\
+         r_data rc = zslice G (j - cf_npre cf) (cf_nsamp cf)).
+Proof. exact check_cycle_sound. Qed.
+Print Assumptions checker_sound_cycle.
+
+(* The premises are met by a history with repeated / self / out-of-range requests, primaries in the new
+   block and in the retained history, and a receiver that fires itself; its secondaries are not empty. *)
+Theorem premises_are_satisfiable :
+  inputs_ok ex_cf None 0 ex_ops /\
+  map (fun o => match o with OSec r => map (map r_frame) r | _ => [] end) (run ex_cf ex_ops)
+  = [[]; [[]; [103]]; [[]; [105; 109]]; []; []; [[]; []]].
+Proof. exact (conj ex_inputs_ok ex_secondaries). Qed.
+Print Assumptions premises_are_satisfiable.
+
+(* Before the fix (AddConnection did not range-check the source): AddConnection(7,1) on 3 channels is
+   stored and reported although the set-theoretic result does not contain it, the next cycle with a primary
+   dies, and the checker rejects that history; the repaired code ignores the request. *)
+Theorem connections_are_set_semantics_refuted_pre_fix :
+  inputs_ok w_cf None 0 w_ops /\
+  run_with add_connection_old keeps_fixed w_cf (init_state 3) w_ops = [ORep [(7, 1)] 1; OCrash] /\
+  rel_of_edits Generic 3 (edits_of w_ops) 7 1 = false /\
+  C09_check w_cf (combine w_ops (run_with add_connection_old keeps_fixed w_cf (init_state 3) w_ops)) = false /\
+  run w_cf w_ops = [ORep [] 0; OSec [[]; []; []]].
+Proof. exact out_of_range_source_pre_fix. Qed.
+Print Assumptions connections_are_set_semantics_refuted_pre_fix.
+
+(* Before the fix of PrepareRun (EMTState.nsamp = 0 on a fresh processor) a never-configured receiver kept
+   10 samples, its configured source 2*nsamp+10: a source primary found in the retained history then asks
+   the receiver for samples it no longer has and the cycle dies.  With equal retention it does not. *)
+Theorem secondary_excerpt_refuted_pre_fix :
+  inputs_ok v_cf None 0 v_ops /\
+  nth 2 (run_with add_connection (fun _ _ => [50; 10]) v_cf (init_state 2) v_ops) (ORep [] 0) = OCrash /\
+  C09_check v_cf (combine v_ops (run_with add_connection (fun _ _ => [50; 10]) v_cf (init_state 2) v_ops)) = false /\
+  map (fun o => match o with OSec r => map (map r_frame) r | _ => [] end) (run v_cf v_ops)
+  = [[]; [[]; [15]]; [[]; [26]]].
+Proof. exact unequal_history_pre_fix. Qed.
+Print Assumptions secondary_excerpt_refuted_pre_fix.
